@@ -80,8 +80,25 @@ func c10Gen(r *RNG, id string) *Case {
 		longRow = true
 		c.Tag("long-row")
 	}
+	bigRef := false
+	if !longRow && c.Get("jit") == "" && r.Chance(1, 50) {
+		// a reference of several thousand columns laid out so that its second line is not in the first 4096 bytes a
+		// scanner reads together with the first line (two long lines, a short line then a long one, a long description)
+		ref = randSeq(r, r.Range(5000, 9000), symACGT, false)
+		if r.Chance(1, 3) {
+			ref = mutateSeq(r, ref, symAmb, 1, 12, true)
+		}
+		n = r.Range(2, 3)
+		bigRef = true
+		c.Set("reflay", r.PickStr([]string{"half", "short-first", "long-header", "w2500"}))
+		c.Tag("reference-beyond-one-scanner-window")
+	}
 	var seqs []string
 	for i := 0; i < n; i++ {
+		if bigRef {
+			seqs = append(seqs, mutateSeq(r, strings.ToUpper(ref), symACGT, 1, 12, false))
+			continue
+		}
 		if longRow && i == n/2 {
 			seqs = append(seqs, mutateSeq(r, strings.ToUpper(ref), symACGT, 9, 10, false))
 			continue
@@ -102,6 +119,30 @@ func execC10(r *RNG, c *Case) {
 	names := splitNames(c.Get("names"))
 	seqs := strings.Split(c.Get("seqs"), ",")
 	refTxt := renderFasta([]string{"reference"}, []string{c.Get("ref")}, randLayout(r))
+	if lay := c.Get("reflay"); lay != "" {
+		ref := c.Get("ref")
+		cut := func(w int) string {
+			var b strings.Builder
+			for i := 0; i < len(ref); i += w {
+				e := i + w
+				if e > len(ref) {
+					e = len(ref)
+				}
+				b.WriteString(ref[i:e] + "\n")
+			}
+			return b.String()
+		}
+		switch lay {
+		case "half":
+			refTxt = ">reference\n" + cut((len(ref)+1)/2)
+		case "short-first":
+			refTxt = ">reference\n" + ref[:10] + "\n" + ref[10:] + "\n"
+		case "long-header":
+			refTxt = ">reference " + strings.Repeat("isolate description ", 200) + "\n" + cut(70)
+		default:
+			refTxt = ">reference\n" + cut(2500)
+		}
+	}
 	alnTxt := renderFasta(withDescriptions(r, names), seqs, randLayout(r))
 	if isCLI(c) {
 		c.Set("go", goField(viaCLI(map[string]string{"r.fa": refTxt, "a.fa": alnTxt}, "", []string{"updown", "list", "-r", "{dir}/r.fa", "-q", "{dir}/a.fa"}, nil)))
